@@ -84,7 +84,7 @@ func Supported(ie *entities.InfoElement) bool {
 
 // Width is the fixed width of a value of ie, or -1 for variable length.
 func Width(ie *entities.InfoElement) int {
-	if ie.Len == entities.VariableLength {
+	if ie.Len == entities.VariableLength || ie.DataType == entities.String {
 		return -1
 	}
 	return int(ie.Len)
@@ -246,6 +246,7 @@ func RegisterCustom() ([]*entities.InfoElement, error) {
 		defs = append(defs, d{fmt.Sprintf("vOctet%d", l), uint16(100 + l), entities.OctetArray, uint16(l)})
 	}
 	defs = append(defs, d{"vOctet300", 400, entities.OctetArray, 300})
+	defs = append(defs, d{"vStringFixed8", 401, entities.String, 8}) // a string element declaring a fixed length (builder-level runs only)
 	out := make([]*entities.InfoElement, 0, len(defs))
 	for _, x := range defs {
 		ie := entities.NewInfoElement(x.name, x.id, x.t, CustomEnt, x.l)
